@@ -1010,6 +1010,9 @@ func checkSignature(algo SignatureAlgorithm, signed, signature []byte, publicKey
 		} else if len(rest) != 0 {
 			return errors.New("x509: trailing data after DSA signature")
 		}
+		if der, err := asn1.Marshal(*dsaSig); err != nil || !bytes.Equal(der, signature) {
+			return errors.New("x509: DSA signature is not a SEQUENCE of two INTEGERs")
+		}
 		if dsaSig.R.Sign() <= 0 || dsaSig.S.Sign() <= 0 {
 			return errors.New("x509: DSA signature contained zero or negative values")
 		}
@@ -1023,6 +1026,11 @@ func checkSignature(algo SignatureAlgorithm, signed, signature []byte, publicKey
 			return err
 		} else if len(rest) != 0 {
 			return errors.New("x509: trailing data after ECDSA signature")
+		}
+		// asn1.Unmarshal ignores whatever follows S inside the SEQUENCE: the
+		// signature must be exactly SEQUENCE { r INTEGER, s INTEGER }
+		if der, err := asn1.Marshal(*ecdsaSig); err != nil || !bytes.Equal(der, signature) {
+			return errors.New("x509: ECDSA signature is not a SEQUENCE of two INTEGERs")
 		}
 		if ecdsaSig.R.Sign() <= 0 || ecdsaSig.S.Sign() <= 0 {
 			return errors.New("x509: ECDSA signature contained zero or negative values")
